@@ -238,3 +238,14 @@ package ir
 //@   ghostcall remapBlockHandles visitedBlock
 //@   traverse stepmark 1 block Block visitedBlock($)
 //
+//
+// The inliner rebuilds the statements whose nested blocks changed; a rebuilt
+// statement must carry over everything that is not a nested block (conditions,
+// selectors, break-if, case values and fall-through flags). Clauses are derived
+// from the statement types: a field added later is covered automatically.
+//
+//@ func inlineBlock
+//@   mode bv
+//@   tags C13
+//@   at append keep stmt arg1[0] Block unless is(stmt.Kind, StmtCall)
+//@   loop 2 step keep sk.Cases[rangeindex] newCases[rangeindex] Block
